@@ -495,6 +495,16 @@ func checkEveryOptionParsed(p *Prog, r *Report, rule string, want func(field str
 				case *ssa.Call:
 					if g := StaticCallee(&t.Call); g != nil && g != fn && g.Name() == "parseRawOptions" && g.Signature.Recv() != nil {
 						ds = append(ds, deriv{t, "embedded " + recvNamed(g).Obj().Name()})
+						continue
+					}
+					// a helper that fills options fields through pointers: parseX(raw, &o.field, ...)
+					for _, a := range t.Call.Args {
+						if fa, ok := a.(*ssa.FieldAddr); ok && rootedAtRecv(fa) {
+							f := fieldName(fa.X.Type(), fa.Field)
+							if want(f) {
+								ds = append(ds, deriv{t, f})
+							}
+						}
 					}
 				}
 			}
